@@ -28,3 +28,18 @@ func init() {
 		thorough:      []buildSpec{plain(16), race(4)},
 	}
 }
+
+func init() {
+	props["C15"] = propSpec{
+		level: "exploration",
+		rule: "instrumented user function (execution counter, max-concurrency gauge, end stamps) wrapped by every flavour of Once (Worker/Operation/Producer/Processor/Handler/Future, adt.Once, Mnemonize, ft.Once/OnceDo), " +
+			"Limit(n) (calls below/at/above n) and Lock/WithLock, called by 1-32 goroutines released from a barrier under speed profiles and GOMAXPROCS 1/2/4/16, incl. two-deep stackings; Retry(n) against scripted outcome sequences " +
+			"(ok/err/skip/EOF/abort/canceled); call-log order of Join/PreHook/PostHook/Chain; waiters of Launch/Signal/Background/StartGroup/Processor.Background/Producer.Background/Producer.Launch checked by happens-before stamps. " +
+			"distinct_nontrivial = distinct (wrapper, caller class, calls/caller, n, speed, GOMAXPROCS, error pattern) with >= 2 callers, plus distinct retry scripts, order cases and background configurations",
+		assumptions:   append([]string{"Retry and terminating errors: only 'no attempt follows the terminating error' is asserted (DESIGN 7h)", "panicking wrapped functions are not driven through Once wrappers (sync.Once semantics)"}, commonAssumptions...),
+		floorEvals:    1000,
+		floorDistinct: 100,
+		quick:         []buildSpec{plain(8)},
+		thorough:      []buildSpec{plain(16), race(4)},
+	}
+}
